@@ -733,7 +733,7 @@ func (env *specEnv) call(n *SCall) (TV, error) {
 		if err != nil {
 			return TV{}, err
 		}
-		ps, pT, err := env.specSort(sf.Params[k].Type)
+		ps, pT, err := env.inPkg(sf.Pkg).specSort(sf.Params[k].Type)
 		if err != nil {
 			return TV{}, err
 		}
@@ -746,14 +746,14 @@ func (env *specEnv) call(n *SCall) (TV, error) {
 		}
 		args = append(args, tv)
 	}
-	rs, rT, err := env.specSort(sf.Result)
+	rs, rT, err := env.inPkg(sf.Pkg).specSort(sf.Result)
 	if err != nil {
 		return TV{}, err
 	}
 	if sf.Body == nil {
 		var sorts, ts []string
 		for k, a := range args {
-			ps, _, _ := env.specSort(sf.Params[k].Type)
+			ps, _, _ := env.inPkg(sf.Pkg).specSort(sf.Params[k].Type)
 			sorts = append(sorts, ps)
 			ts = append(ts, a.T)
 		}
@@ -764,7 +764,7 @@ func (env *specEnv) call(n *SCall) (TV, error) {
 	if env.depth > 40 {
 		return TV{}, fmt.Errorf("spec function nesting too deep at %s", n.Fn)
 	}
-	sub := &specEnv{e: env.e, vc: env.vc, pkg: env.pkg, heapAt: env.heapAt, oldHeap: env.oldHeap, bound: map[string]TV{}, depth: env.depth + 1}
+	sub := &specEnv{e: env.e, vc: env.vc, pkg: sf.Pkg, heapAt: env.heapAt, oldHeap: env.oldHeap, bound: map[string]TV{}, depth: env.depth + 1}
 	for k, p := range sf.Params {
 		sub.bound[p.Name] = args[k]
 	}
@@ -801,7 +801,7 @@ func selectPatterns(t, bv string) []string {
 		}
 		parts := sexprParts(x)
 		if len(parts) == 3 && parts[0] == "select" && strings.Contains(parts[2], bv) && !strings.Contains(parts[1], bv) {
-			if !seen[x] && !strings.Contains(parts[2], "(select") {
+			if !seen[x] {
 				seen[x] = true
 				out = append(out, x)
 			}
@@ -812,4 +812,14 @@ func selectPatterns(t, bv string) []string {
 	}
 	walk(t)
 	return out
+}
+
+// inPkg returns a shallow copy of env resolving type names in package pkg.
+func (env *specEnv) inPkg(pkg string) *specEnv {
+	if pkg == "" || pkg == env.pkg {
+		return env
+	}
+	c := *env
+	c.pkg = pkg
+	return &c
 }
